@@ -774,7 +774,8 @@ fn absorb(agg: &mut Agg, subseed: u64, h: &History, rep: &RunReport, oracle: &Or
             res["lock_order"].as_str().unwrap_or("")
         );
         let fp = simcore::fingerprint(sig.as_bytes());
-        if h.threads.len() >= 2 || any_fail_inside {
+        let any_panic = res["outcomes"].as_array().map(|ts| ts.iter().any(|t| t.as_array().map(|cs| cs.iter().any(|o| o["k"] == "panic")).unwrap_or(false))).unwrap_or(false);
+        if h.threads.len() >= 2 || any_fail_inside || (h.flavour == "plain-seq" && any_panic) {
             agg.distinct_nontrivial.insert(fp.clone());
         }
         agg.distinct.insert(fp);
@@ -786,7 +787,7 @@ fn absorb(agg: &mut Agg, subseed: u64, h: &History, rep: &RunReport, oracle: &Or
             }
         }
     }
-    if agg.samples.len() < 3 && h.threads.len() >= 2 {
+    if agg.samples.len() < 3 && (h.threads.len() >= 2 || h.flavour == "plain-seq" && oracle.cfg.hooked.is_none()) {
         agg.samples.push(json!({
             "subseed": subseed,
             "flavour": h.flavour,
@@ -1132,7 +1133,7 @@ fn main() {
     let coverage = json!({
         "evaluations": agg.runs,
         "distinct_nontrivial": agg.distinct_nontrivial.len(),
-        "rule": "one evaluation = one simulated history (1..16 caller threads x call lists x schedule source x fault plan) run in one fresh simulated process and compared call by call with fresh-process references; distinct = distinct (history, lock-acquisition order) fingerprints; non-trivial = at least 2 threads or at least one call that failed inside a cache critical section",
+        "rule": "one evaluation = one simulated history (1..16 caller threads x call lists x schedule source x fault plan) run in one fresh simulated process and compared call by call with fresh-process references; distinct = distinct (history, lock-acquisition order) fingerprints; non-trivial = at least 2 threads or at least one call that failed (panicked) inside a cache critical section",
         "samples": agg.samples,
         "distinct_histories_x_interleavings": agg.distinct.len(),
         "calls_checked_against_fresh_process_reference": agg.calls,
